@@ -268,6 +268,73 @@ func tokenTheory(st *SpecTables) string {
 			fmt.Fprintf(&sb, "(define-fun isname_%s_upto_%s ((s String)) Bool (or %s))\n", v, short[lv], strings.Join(cumNames, " "))
 			fmt.Fprintf(&sb, "(define-fun tokval_%s_upto_%s ((t String)) Bool (or %s))\n", v, short[lv], strings.Join(cumVals, " "))
 		}
+		if v == "v2" {
+			// token-level well-formedness (C08): exactly the canonical sequence of the level's groups
+			pos := 0
+			var groupPred, groupHint, groupFlat, groupNames []string
+			for _, lv := range levels {
+				var conj, hint, flat, nms []string
+				for _, m := range f.Metrics {
+					if m.Level != lv {
+						continue
+					}
+					conj = append(conj, fmt.Sprintf("(shape (tok v %d)) (= (nm (tok v %d)) %s) (not (= (parse_v2_%s (vl (tok v %d))) %d))", pos, pos, smtStringLit(m.Name), m.Name, pos, m.UnknownN))
+					// instance of the C20 round-trip lemma (parse(s) != unknown ==> code(parse(s)) == s) at this token
+					hint = append(hint, fmt.Sprintf("(=> (not (= (parse_v2_%s (vl (tok v %d))) %d)) (= (code_v2_%s (parse_v2_%s (vl (tok v %d)))) (vl (tok v %d))))", m.Name, pos, m.UnknownN, m.Name, m.Name, pos, pos))
+					sep := "/"
+					if pos == 0 {
+						sep = ""
+					}
+					flat = append(flat, fmt.Sprintf("%s (vl (tok v %d))", smtStringLit(sep+m.Name+":"), pos))
+					nms = append(nms, fmt.Sprintf("(shape (tok v %d)) (= (nm (tok v %d)) %s)", pos, pos, smtStringLit(m.Name)))
+					pos++
+				}
+				groupPred = append(groupPred, strings.Join(conj, " "))
+				groupHint = append(groupHint, strings.Join(hint, " "))
+				groupFlat = append(groupFlat, strings.Join(flat, " "))
+				groupNames = append(groupNames, strings.Join(nms, " "))
+			}
+			rep6 := strings.NewReplacer("(tok v 9)", "(tok v 6)", "(tok v 10)", "(tok v 7)", "(tok v 11)", "(tok v 8)", "(tok v 12)", "(tok v 9)", "(tok v 13)", "(tok v 10)")
+			// A1 instance in flattened form: a vector of n tokens "Name:value" with the given names is the concatenation
+			// "N0:" v0 "/N1:" v1 ...  (Join(Split(v,"/"),"/") = v and token = name ":" value)
+			flatDef := func(n int, names, flat string) {
+				fmt.Fprintf(&sb, "(define-fun a1_flat%d ((v String)) Bool (=> (and (= (ntok v) %d) %s) (= v (str.++ %s))))\n", n, n, names, flat)
+			}
+			flatDef(6, groupNames[0], groupFlat[0])
+			flatDef(9, groupNames[0]+" "+groupNames[1], groupFlat[0]+" "+groupFlat[1])
+			flatDef(11, groupNames[0]+" "+rep6.Replace(groupNames[2]), groupFlat[0]+" "+rep6.Replace(groupFlat[2]))
+			flatDef(14, groupNames[0]+" "+groupNames[1]+" "+groupNames[2], groupFlat[0]+" "+groupFlat[1]+" "+groupFlat[2])
+			hintAt6 := strings.NewReplacer("(tok v 9)", "(tok v 6)", "(tok v 10)", "(tok v 7)", "(tok v 11)", "(tok v 8)", "(tok v 12)", "(tok v 9)", "(tok v 13)", "(tok v 10)").Replace(groupHint[2])
+			fmt.Fprintf(&sb, "(define-fun c20_hint_s6 ((v String)) Bool (and %s))\n", groupHint[0])
+			fmt.Fprintf(&sb, "(define-fun c20_hint_s9 ((v String)) Bool (and %s %s))\n", groupHint[0], groupHint[1])
+			fmt.Fprintf(&sb, "(define-fun c20_hint_s11 ((v String)) Bool (and %s %s))\n", groupHint[0], hintAt6)
+			fmt.Fprintf(&sb, "(define-fun c20_hint_s14 ((v String)) Bool (and %s %s %s))\n", groupHint[0], groupHint[1], groupHint[2])
+			// group positions: base 0..5, then temporal at 6..8 (if present), environmental after the groups before it
+			envAt6 := strings.NewReplacer("(tok v 9)", "(tok v 6)", "(tok v 10)", "(tok v 7)", "(tok v 11)", "(tok v 8)", "(tok v 12)", "(tok v 9)", "(tok v 13)", "(tok v 10)").Replace(groupPred[2])
+			// the four canonical shapes: 6 = base; 9 = base+temporal; 11 = base+environmental; 14 = all three groups
+			fmt.Fprintf(&sb, "(define-fun wf_v2_s6 ((v String)) Bool (and (= (ntok v) 6) %s))\n", groupPred[0])
+			fmt.Fprintf(&sb, "(define-fun wf_v2_s9 ((v String)) Bool (and (= (ntok v) 9) %s %s))\n", groupPred[0], groupPred[1])
+			fmt.Fprintf(&sb, "(define-fun wf_v2_s11 ((v String)) Bool (and (= (ntok v) 11) %s %s))\n", groupPred[0], envAt6)
+			fmt.Fprintf(&sb, "(define-fun wf_v2_s14 ((v String)) Bool (and (= (ntok v) 14) %s %s %s))\n", groupPred[0], groupPred[1], groupPred[2])
+			sb.WriteString("(define-fun wf_v2_base ((v String)) Bool (wf_v2_s6 v))\n")
+			sb.WriteString("(define-fun wf_v2_temporal ((v String)) Bool (or (wf_v2_s6 v) (wf_v2_s9 v)))\n")
+			sb.WriteString("(define-fun wf_v2_env ((v String)) Bool (or (wf_v2_s6 v) (wf_v2_s9 v) (wf_v2_s11 v) (wf_v2_s14 v)))\n")
+			// A1 instances (contract of strings.Split / strings.Join), as named hypotheses
+			sb.WriteString("(define-fun a1_colon ((t String)) Bool (=> (= (nsplit_colon t) 2) (= t (str.++ (part0 t) \":\" (part1 t)))))\n")
+			for _, n := range []int{6, 9, 11, 14} {
+				var parts, cols []string
+				for k := 0; k < n; k++ {
+					if k > 0 {
+						parts = append(parts, "\"/\"")
+					}
+					parts = append(parts, fmt.Sprintf("(tok v %d)", k))
+					cols = append(cols, fmt.Sprintf("(a1_colon (tok v %d))", k))
+				}
+				fmt.Fprintf(&sb, "(define-fun a1_join%d ((v String)) Bool (and (=> (= (ntok v) %d) (= v (str.++ %s))) %s))\n", n, n, strings.Join(parts, " "), strings.Join(cols, " "))
+			}
+			// Split(Join(pieces)) = pieces for '/'-free pieces: v is the join of n pieces given as an array
+			sb.WriteString("(define-fun slashfree ((s String)) Bool (not (str.contains s \"/\")))\n")
+		}
 		if v == "v3" {
 			for _, lv := range levels {
 				var ex []string
